@@ -60,7 +60,9 @@ def gen(tier, seed, shard, nshards):
 def _check_call(rec, family, case, gname, fn, p, k, wr, rs):
     """One seeded call with and without the ordering; returns (masks, ordering) or None."""
     args = (p, k) if gname == "dag_avg_deg" else (p,)
-    kw = {"w_min": wr[0], "w_max": wr[1], "random_state": rs}
+    if rs % 5 == 0:       # numpy scalars instead of python numbers
+        args = (np.int64(p), np.float64(k)) if gname == "dag_avg_deg" else (np.int32(p),)
+    kw = {"w_min": wr[0], "w_max": wr[1], "random_state": rs if rs % 7 else np.int64(rs)}
     sub = {"gen": gname, "p": p, "k": k, "wrange": wr, "random_state": rs}
     try:
         W = fn(*args, **kw)
